@@ -66,7 +66,7 @@ def handle_connect_contract(world, target):
     return Contract(
         target=target, schema=world, self_obj='client', params={'namespace': 'V', 'data': 'V'},
         requires=lambda c: dict(base_req(c), **{'dom.ns-not-star': ns_(c) != c13.STAR,
-                                                'payload-is-a-dict-or-none': z3.Or(c.a.data == NONE, smt.kind(c.a.data) == smt.K_DICT)}),
+                                                'dom.payload-is-a-dict-or-none': z3.Or(c.a.data == NONE, smt.kind(c.a.data) == smt.K_DICT)}),
         cases=[Case('first-acceptance', when=fresh, post=accepted),
                Case('first-acceptance.handler-raises', when=fresh, kind='raise', exc='Exception',
                     post=lambda c: {k: v for k, v in accepted(c).items() if k != 'waiter-woken'}),
@@ -335,3 +335,149 @@ def register(reg):
         reg.add(eio_disconnect_contract(w, '%s.%s._handle_eio_disconnect' % (m_, c_)))
         reg.add(connect_summary(w, '%s.%s.connect' % (m_, c_)))
         reg.add(reconnect_contract(w, '%s.%s._handle_reconnect' % (m_, c_)))
+
+
+# ============================================================================ _handle_error, _handle_eio_connect, disconnect, _handle_eio_message
+from pyvc.contract import delegated
+from .packet_summary import dec_type, dec_ns, dec_id, dec_data, dec_count, reconstructed
+from .lifecycle import T, CONNECT_T, DISCONNECT_T
+
+
+def handle_error_contract(world, target):
+    def ns_(c):
+        return eff_ns(c.a.namespace)
+
+    def args_of(d_):
+        """the arguments the connect_error handler receives: none for None, the elements of a list/tuple, else the value"""
+        return d_
+
+    def post(c):
+        ns = ns_(c)
+        d_ = c.a.data
+        n0, n1 = nss(c.pre), nss(c.post)
+        d0, d1 = c.pre.get(*DISP), c.post.get(*DISP)
+        x = z3.Const('he_x', V)
+        ev = c.pre.get('client', '_connect_event').leaf()
+        has = c13.target_exists(c.pre, 'client', ns, A('connect_error'), NAMES)
+        n = d0.c['len']
+        p_ = z3.Int('he_p')
+        islist = z3.Or(smt.kind(d_) == smt.K_LIST, smt.kind(d_) == smt.K_TUPLE)
+        args_ok = z3.If(d_ == NONE, d1.c['args#len'][n] == 0,
+                        z3.If(islist, z3.And(d1.c['args#len'][n] == smt.vlen(d_),
+                                             z3.ForAll([p_], z3.Implies(z3.And(p_ >= 0, p_ < smt.vlen(d_)), d1.c['args#arr'][n][p_] == smt.vseq(d_)[p_]))),
+                              z3.And(d1.c['args#len'][n] == 1, d1.c['args#arr'][n][0] == d_)))
+        is_default = ns == SLASH
+        return {
+            'refusal-reported-to-the-connect_error-handler': z3.If(has, z3.And(log_grew(d0, d1, 1), d1.c['event'][n] == A('connect_error'), d1.c['ns'][n] == ns, args_ok),
+                                                                   sv_equiv(d1, d0)),
+            'waiter-woken': c.post.get(*EVENTS).c['.'][ev],
+            'namespace-not-connected-afterwards': z3.Not(n1.c['dom'][ns]),
+            'other-namespaces': z3.If(is_default, n1.c['dom'] == z3.K(V, z3.BoolVal(False)),
+                                      z3.ForAll([x], z3.Implies(x != ns, z3.And(n1.c['dom'][x] == n0.c['dom'][x], z3.Implies(n0.c['dom'][x], n1.c['.'][x] == n0.c['.'][x]))))),
+            'connected-flag': z3.If(is_default, z3.Not(connected(c.post)), connected(c.post) == connected(c.pre)),
+        }
+    return Contract(
+        target=target, schema=world, self_obj='client', params={'namespace': 'V', 'data': 'V'},
+        requires=lambda c: dict(base_req(c), **{'dom.ns-not-star': ns_(c) != c13.STAR}),
+        cases=[Case('refused', post=post),
+               Case('refused.handler-raises', kind='raise', exc='Exception', post=lambda c: {})],
+        modifies=[NSS, CONN, DISP, CALLS, EVENTS], props=['C08'],
+        must_fail=lambda c: {'refused:claims-still-connected-there': nss(c.post).c['dom'][ns_(c)]})
+
+
+def client_eio_message_contract(world, target):
+    def buffering(c):
+        return c.pre.get(*BINP).c['some']
+    given = lambda c: smt.truthy(c.a.data)
+    ty = lambda c: z3.If(given(c), dec_type(c.a.data), T['EVENT'])
+    f_ns = lambda c: z3.If(given(c), dec_ns(c.a.data), NONE)
+    f_id = lambda c: z3.If(given(c), dec_id(c.a.data), NONE)
+    f_data = lambda c: z3.If(given(c), dec_data(c.a.data), NONE)
+    f_count = lambda c: z3.If(given(c), dec_count(c.a.data), 0)
+    PRE_CALLS = ('.decode', '._data_is_binary', '.add_attachment')
+    fresh_frame = lambda c, t: z3.And(z3.Not(buffering(c)), ty(c) == T[t])
+    ev_args = lambda c: dict(namespace=f_ns(c), id=f_id(c), data=f_data(c))
+    ns_only = lambda c: dict(namespace=f_ns(c))
+    ns_data = lambda c: dict(namespace=f_ns(c), data=f_data(c))
+
+    def rejected(c):
+        return {'no-handler-runs': sv_equiv(c.post.get(*DISP), c.pre.get(*DISP)), 'nothing-sent': sv_equiv(c.post.get(*OUT), c.pre.get(*OUT)),
+                'state-untouched': z3.And(sv_equiv(nss(c.post), nss(c.pre)), sv_equiv(c.post.get(*CBS), c.pre.get(*CBS)), sv_equiv(c.post.get(*BINP), c.pre.get(*BINP)))}
+
+    def plain(suffix, argf, kind):
+        return lambda c: delegated(c, suffix, argf(c), kind, allow_before=PRE_CALLS)
+    cases = []
+    for tname, suffix, argf in (('EVENT', '._handle_event', ev_args), ('ACK', '._handle_ack', ev_args), ('CONNECT', '._handle_connect', ns_data),
+                                ('DISCONNECT', '._handle_disconnect', ns_only), ('CONNECT_ERROR', '._handle_error', ns_data)):
+        g_ = (lambda t: lambda c: fresh_frame(c, t))(tname)
+        cases.append(Case(tname, when=g_, post=plain(suffix, argf, 'return')))
+        cases.append(Case(tname + '.handler-raises', when=g_, kind='raise', exc='Exception', post=plain(suffix, argf, 'raise'), group='dx:' + tname))
+        cases.append(Case(tname + '.undecodable', when=g_, kind='raise', exc='Exception', post=rejected, group='dx:' + tname))
+    is_bin_hdr = lambda c: z3.And(z3.Not(buffering(c)), z3.Or(ty(c) == T['BINARY_EVENT'], ty(c) == T['BINARY_ACK']))
+    bad_type = lambda c: z3.And(z3.Not(buffering(c)), z3.Not(z3.Or(*[ty(c) == T[k] for k in T])))
+
+    def buf(c, st):
+        return st.get(*BINP).child(('?',))
+
+    def header_stored(c):
+        rec = buf(c, c.post)
+        return {'kept-for-reassembly': c.post.get(*BINP).c['some'],
+                'fields': z3.And(rec.c['packet_type/'] == ty(c), rec.c['namespace/'] == f_ns(c), rec.c['id/'] == f_id(c), rec.c['data/'] == f_data(c),
+                                 rec.c['attachment_count/'] == f_count(c), rec.c['attachments/len'] == 0),
+                'nothing-invoked': sv_equiv(c.post.get(*DISP), c.pre.get(*DISP)), 'nothing-sent': sv_equiv(c.post.get(*OUT), c.pre.get(*OUT))}
+    n_att = lambda c: buf(c, c.pre).c['attachments/len']
+    count = lambda c: buf(c, c.pre).c['attachment_count/']
+    more = lambda c: z3.And(buffering(c), count(c) > n_att(c) + 1)
+    last = lambda c: z3.And(buffering(c), count(c) == n_att(c) + 1)
+    last_ev = lambda c: z3.And(last(c), buf(c, c.pre).c['packet_type/'] == T['BINARY_EVENT'])
+    last_ack = lambda c: z3.And(last(c), buf(c, c.pre).c['packet_type/'] != T['BINARY_EVENT'])
+
+    def completed_args(c):
+        r = buf(c, c.pre)
+        atts = PySeq([View(r.c['attachments/arr'], z3.IntVal(0), n_att(c)), Fixed([S(c.a.data)])], 'list')
+        return dict(namespace=r.c['namespace/'], id=r.c['id/'], data=reconstructed(r.c['data/'], c.eng.to_v(c.ctx, atts)))
+
+    def completes(suffix, kind):
+        def post(c):
+            d = delegated(c, suffix, completed_args(c), kind, allow_before=PRE_CALLS, changed_before=[BINP])
+            d['no-half-received-packet-left'] = z3.Not(c.post.get(*BINP).c['some'])
+            return d
+        return post
+
+    def appended(c):
+        r0, r1 = buf(c, c.pre), buf(c, c.post)
+        n = n_att(c)
+        p_ = z3.Int('ap_p')
+        return {'attachment-kept-in-arrival-order': z3.And(c.post.get(*BINP).c['some'], r1.c['attachments/len'] == n + 1, r1.c['attachments/arr'][n] == c.a.data,
+                                                            z3.ForAll([p_], z3.Implies(z3.And(p_ >= 0, p_ < n), r1.c['attachments/arr'][p_] == r0.c['attachments/arr'][p_])),
+                                                            *[r1.c[f] == r0.c[f] for f in ('packet_type/', 'namespace/', 'id/', 'data/', 'attachment_count/')]),
+                'nothing-invoked': sv_equiv(c.post.get(*DISP), c.pre.get(*DISP)), 'nothing-sent': sv_equiv(c.post.get(*OUT), c.pre.get(*OUT))}
+    cases += [
+        Case('attachment.more-to-come', when=more, post=appended),
+        Case('attachment.completes-event', when=last_ev, post=completes('._handle_event', 'return')),
+        Case('attachment.completes-event.handler-raises', when=last_ev, kind='raise', exc='Exception', post=completes('._handle_event', 'raise')),
+        Case('attachment.completes-ack', when=last_ack, post=completes('._handle_ack', 'return')),
+        Case('attachment.completes-ack.callback-raises', when=last_ack, kind='raise', exc='Exception', post=completes('._handle_ack', 'raise')),
+        Case('attachment.unexpected', when=lambda c: z3.And(buffering(c), count(c) <= n_att(c)), kind='raise', exc='ValueError', post=rejected),
+        Case('attachment.unexpected.accepted', when=lambda c: z3.And(buffering(c), count(c) <= n_att(c)), forbid=True),
+        Case('binary-header', when=is_bin_hdr, post=header_stored),
+        Case('binary-header.undecodable', when=is_bin_hdr, kind='raise', exc='Exception', post=rejected),
+        Case('unexpected-type-or-undecodable', when=bad_type, kind='raise', exc='Exception', post=rejected),
+        Case('unexpected-type.accepted', when=bad_type, forbid=True),
+    ]
+    return Contract(
+        target=target, schema=world, self_obj='client', params={'data': 'V'},
+        requires=lambda c: dict(base_req(c), **{'buffered-packet-came-off-the-wire': z3.Implies(buffering(c), smt.kind(buf(c, c.pre).c['id/']) != smt.K_OTHER)}),
+        cases=cases,
+        modifies=[NSS, CONN, DISP, CALLS, ('eio', 'state'), CBS, NEXT, BINP, SID, RTASK, TASKS, OUT, ('g', 'raw'), EVENTS], props=['C09', 'C08'],
+        must_fail=lambda c: {'EVENT:claims-no-call': z3.BoolVal(len([n for n in c.ctx.notes if n[0] == 'called' and n[1].endswith('._handle_event')]) == 0)})
+
+
+_reg1 = register
+
+
+def register(reg):
+    _reg1(reg)
+    for w, m_, c_ in ((worlds.CLIENT, 'client', 'Client'), (worlds.ASYNC_CLIENT, 'async_client', 'AsyncClient')):
+        reg.add(handle_error_contract(w, '%s.%s._handle_error' % (m_, c_)))
+        reg.add(client_eio_message_contract(w, '%s.%s._handle_eio_message' % (m_, c_)))
